@@ -130,10 +130,20 @@ fn history_body(src: &mut Src, st: &mut Stats) -> CaseResult {
                     match jmespath::compile(&exprs[i]) {
                         Ok(c) => {
                             let a = c.as_ast().clone();
-                            if c.as_str() != exprs[i] {
-                                return Err(Failure::new("history", "compiled-text-differs", format!("as_str() = {:?}", c.as_str()), case(&log, &exprs, &doc_texts)));
+                            if c.as_str() != exprs[i] || c.to_string() != exprs[i] || format!("{:?}", c) != exprs[i] {
+                                return Err(Failure::new("history", "compiled-text-differs", format!("as_str() = {:?}, Display = {:?}", c.as_str(), c.to_string()), case(&log, &exprs, &doc_texts)));
                             }
-                            handles.push((i, c));
+                            // an expression assembled through the public constructor is the same expression
+                            let built = jmespath::Expression::new(exprs[i].clone(), a.clone(), &*jmespath::DEFAULT_RUNTIME);
+                            if built != c || built.as_ast() != c.as_ast() || c.clone() != c {
+                                return Err(Failure::new("history", "expression-equality-wrong", "Expression::new / clone do not compare equal to the compiled expression".into(), case(&log, &exprs, &doc_texts)));
+                            }
+                            if let Some(other) = handles.iter().find(|(j, _)| *j != i && exprs[*j] != exprs[i]) {
+                                if other.1 == c {
+                                    return Err(Failure::new("history", "expression-equality-wrong", "two different expressions compare equal".into(), case(&log, &exprs, &doc_texts)));
+                                }
+                            }
+                            handles.push((i, if src.flip() { built } else { c }));
                             Ok(a)
                         }
                         Err(e) => Err(format!("{:?}", e)),
